@@ -1,4 +1,47 @@
-"""C40 — bundles and merge directives reproduce what they carry.  (work in progress)
+"""C40 — bundles and merge directives reproduce what they carry.
+
+Mechanism: breezy/bzr/bundle/serializer/v4.py (BundleWriteOperation, BundleWriter/BundleReader,
+RevisionInstaller), v08.py / v09.py + bundle_data.py (BundleSerializerV08/09, BundleReader, BundleInfo,
+BundleTree), apply_bundle.py (install_bundle), breezy/merge_directive.py (MergeDirective2.to_lines /
+_from_lines / from_objects / _verify_patch, MergeDirective.from_lines).
+
+Model (lean/BreezyVerif/Model/C40.lean): (1) record-level bundle write/install over the abstract repository
+of C03: bundled revisions = source ancestry of the target minus everything reachable from the base
+(C33.bfs); v4 carries one revision + one inventory record per revision (target last) and the text records
+chosen by fileids_altered_by_revision_ids (CHK: entries that differ from every boundary-parent inventory;
+XML inventories: entries whose text revision is bundled); install adds every record, existing keys keep
+their value; 0.8/0.9 carries one record per revision with the base its delta is against (explicit base for
+the target, last parent otherwise), install skips present revisions, needs every base, adds revision,
+inventory and the inventory's missing texts.  (2) merge directive format 2 at byte level: header search and
+format lookup, stanza block (codec = parameter), `# Begin patch` / `# Begin bundle` sections built with
+bytes.splitlines(True).  (3) _verify_patch's normalisation (CR/CRLF -> LF, trailing spaces dropped).
+
+T2: histories generated as abstract tree states per revision (adds, content edits incl. binary/NUL/CRLF/no
+final newline, renames, moves of directories, name swaps, deletions, exec toggles, symlinks and target
+changes, occasional kind changes, merges that take content / names / new files from the other parent,
+unicode and spaced names, odd messages and committers) are committed through a real working tree; for
+sampled (base, target) pairs (base an ancestor, a sibling or a descendant of the target, or null:) the real
+serializers 4 and 0.9 (0.8 for non-rich-root formats) write the bundle, a fresh repository holding only the
+base (sometimes also an unrelated extra revision) installs it, and the bundled revision / inventory / text
+keys, the returned target, the per-revision bases (0.9) and all key sets of the repository afterwards are
+compared with the model.  Directives with random fields are serialised by the real code and compared line
+by line with the model (stanza block taken from the real codec), parsed back from the list and from a file
+object with the model predicting the stanza block the codec consumes and the patch/bundle split; a ~10 %
+stream damages the text outside the stanza (junk before the header, other / unknown formats, bad payload
+markers) and is compared on error kind and payload split.  The normalisation is compared exhaustively on all
+strings over {a, space, CR, LF} up to length 7, and on real diffs with one-byte mutations.
+
+Oracle (independent of the model): after every install every revision of the target's ancestry is present
+with an equal Revision, an equal StrictTestament3 text, and byte-identical file texts whose sha1 is the one
+the inventory records; nothing the repository held changed; the returned revision is the target; merging
+the target into a checkout from the bundle (Merger.from_mergeable) and from the branch gives identical
+working trees, conflicts and pending merges; a bundle with one byte changed either raises or installs
+exactly the original revisions; from_lines(to_lines(d)) == d field by field on the documented domain (no
+patch line starting with `# Begin bundle`; a patch that is followed by a bundle ends with a newline;
+integral time); MergeDirective2.from_objects directives install their target with the testament sha1 they
+name and their patch verifies; a patch mutation outside {space, CR, LF} is never reported as verified.
+
+Mutants this was built against: see MUTANTS (filled in by the self-test).
 """
 import hashlib
 import os
@@ -6,6 +49,30 @@ import random
 import shutil
 
 from vlib import env
+
+THEOREMS = []
+RUST = ("patch-py",)      # format_patch_date / parse_patch_date of the directive's timestamp
+RULE = ("scenario = (seed, index, repository format): a generated history of 5-8 revisions committed through a working "
+        "tree; case = one (base, target, serializer version[, extra revision in the installing repository]) "
+        "write+install, one single-byte mutation of a bundle, one bundle-vs-branch merge, one directive (random "
+        "fields) round trip, one damaged directive text, one from_objects directive with patch mutations, or one "
+        "string of the exhaustive normalisation enumeration; non-trivial = the bundle carries >= 2 revisions or "
+        "is relative to a non-null base / the directive has a patch or a bundle; distinct by canonical case")
+ASSUMPTIONS = [
+    "sha-1 is injective on the texts met (a changed text has a changed sha1); bz2's CRC detects damaged compressed "
+    "blocks: both are what makes a mutated bundle fail, neither is modelled",
+    "the stanza codec of bzrformats (rio.Stanza, rio_patch.to_patch_lines / read_patch_stanza) round-trips: "
+    "dec(enc(fields) ++ ['# \\n'] ++ rest) = (fields, rest) — the hypothesis of directive_roundtrip, checked on "
+    "every generated directive through the real code",
+    "merge directive times are whole seconds (format_patch_date has second resolution)",
+]
+TRUSTED = [
+    "mpdiff, container, bz2, base64 and patch-text encodings (bzrformats / stdlib) and the 0.9 text format's "
+    "parser are exercised by the correspondence run and judged by the oracle, not modelled",
+    "the order in which 0.9 records are installed is vcsgraph's iter_topo_order (external): the model checks that "
+    "every base is in the repository or in the bundle instead",
+    "vcsgraph's breadth-first searcher is specified by Model/C33.bfs (its own correspondence is checked by C33)",
+]
 
 NULL = b"null:"
 ROOT_ID = b"TREE_ROOT"
@@ -386,3 +453,979 @@ def real_tree_state(tree):
 def abstract_tree_state(tree):
     paths = tree_paths(tree)
     return {f: (paths[f], e[2], e[3], bool(e[4]) if e[2] == "file" else False) for f, e in tree.items()}
+
+
+# ------------------------------------------------------------------ abstract state of a real repository
+def _tok(b, n=6):
+    return int(hashlib.sha1(b).hexdigest()[:n], 16)
+
+
+def read_state(repo):
+    """revs: rid -> (parents, meta tuple); invs: rid -> {fid: (path, kind, exec, link, textrev, sha1)};
+    texts: (fid, rev) -> stored fulltext.  Formats without rich roots keep no text for the root directory:
+    its entry is left out there."""
+    st = dict(revs={}, invs={}, texts={})
+    with repo.lock_read():
+        rich = repo.supports_rich_root()
+        rids = sorted(k[-1] for k in repo.revisions.keys())
+        for rid, rev in repo.iter_revisions(rids):
+            st["revs"][rid] = (tuple(rev.parent_ids),
+                               (rev.committer, rev.timestamp, rev.timezone, rev.message,
+                                tuple(sorted(rev.properties.items()))))
+        iids = sorted(k[-1] for k in repo.inventories.keys())
+        for inv in repo.iter_inventories(iids):
+            ents = {}
+            for p, ie in inv.iter_entries():
+                if p == "" and not rich:
+                    continue
+                ents[ie.file_id] = (p, ie.kind, bool(getattr(ie, "executable", False)),
+                                    getattr(ie, "symlink_target", None), ie.revision,
+                                    getattr(ie, "text_sha1", None))
+            st["invs"][inv.revision_id] = ents
+        keys = sorted(repo.texts.keys())
+        for rec in repo.texts.get_record_stream(keys, "unordered", True):
+            try:
+                st["texts"][rec.key] = rec.get_bytes_as("fulltext")
+            except Exception as e:   # unreadable text
+                st["texts"][rec.key] = ("unreadable: %s" % type(e).__name__).encode()
+    return st
+
+
+class Numbering:
+    def __init__(self, states, extra=()):
+        rids, fids = set(extra), set()
+        for st in states:
+            for rid, (ps, _m) in st["revs"].items():
+                rids.add(rid)
+                rids.update(ps)
+            for rid, ents in st["invs"].items():
+                rids.add(rid)
+                for fid, e in ents.items():
+                    fids.add(fid)
+                    rids.add(e[4])
+            for (fid, rev) in st["texts"]:
+                fids.add(fid)
+                rids.add(rev)
+        rids.discard(NULL)
+        self.rev = {rid: i + 1 for i, rid in enumerate(sorted(rids))}
+        self.rev[NULL] = 0
+        self.fid = {fid: i + 1 for i, fid in enumerate(sorted(fids))}
+
+    def r(self, rid):
+        return self.rev[rid]
+
+    def f(self, fid):
+        return self.fid[fid]
+
+
+def enc_state(st, nb):
+    revs = ";".join("%d:%d:%s" % (nb.r(rid), _tok(repr(m).encode()),
+                                  ".".join(str(nb.r(p)) for p in ps if p != NULL) or "-")
+                    for rid, (ps, m) in sorted(st["revs"].items())) or "-"
+    invs = ";".join("%d:%s" % (nb.r(rid), ",".join(
+        "%d.%d.%d.%d" % (nb.f(fid), _tok(repr(e[:4]).encode()), nb.r(e[4]),
+                         _tok(e[5] or b"")) for fid, e in sorted(ents.items())) or "-")
+        for rid, ents in sorted(st["invs"].items())) or "-"
+    texts = ";".join("%d.%d.%d" % (nb.f(fid), nb.r(rev), _tok(hashlib.sha1(t).hexdigest().encode()))
+                     for (fid, rev), t in sorted(st["texts"].items())) or "-"
+    return "%s %s %s" % (revs, invs, texts)
+
+
+def canon_after(st, nb):
+    revs = ",".join(str(x) for x in sorted(nb.r(r) for r in st["revs"])) or "-"
+    invs = ",".join(str(x) for x in sorted(nb.r(r) for r in st["invs"])) or "-"
+    texts = ",".join("%d.%d.%d" % t for t in sorted(
+        (nb.f(fid), nb.r(rev), _tok(hashlib.sha1(t).hexdigest().encode()))
+        for (fid, rev), t in st["texts"].items())) or "-"
+    return "%s %s %s" % (revs, invs, texts)
+
+
+def ids_field(nb, rids):
+    return ",".join(str(x) for x in sorted({nb.r(r) for r in rids})) or "-"
+
+
+# ------------------------------------------------------------------ one bundle case
+CHK_FORMATS = ("2a",)
+
+
+def src_ancestry(st, rev):
+    seen, todo = set(), [rev]
+    while todo:
+        r = todo.pop()
+        if r in seen or r not in st["revs"]:
+            continue
+        seen.add(r)
+        todo.extend(st["revs"][r][0])
+    return seen
+
+
+def new_repo(fmt):
+    from breezy.controldir import ControlDir, format_registry
+    return ControlDir.create(env.fresh_dir("T"), format=format_registry.make_controldir(fmt)).create_repository()
+
+
+def base09(by_id, ids, base, target, k):
+    """the tree revision k's actions are relative to in a 0.8/0.9 bundle"""
+    if k == target:
+        return base
+    ps = by_id[k]["parents"]
+    return ps[-1] if ps else NULL
+
+
+def classify_write_failure(ver, fmt, exc, by_id, ids, base, target):
+    """family of an exception raised while writing a bundle, computed from the history"""
+    if ver != "4" and fmt in CHK_FORMATS and type(exc).__name__ == "NoSuchFile":
+        for k in ids:
+            b = base09(by_id, ids, base, target, k)
+            if b == NULL or b not in by_id:
+                continue
+            new, old = by_id[k]["tree"], by_id[b]["tree"]
+            np_, op_ = tree_paths(new), tree_paths(old)
+            for fid in new:
+                if fid in old and new[fid] == old[fid] and np_[fid] != op_[fid]:
+                    # an entry that is itself unchanged (same parent id, name, content) below a directory that moved
+                    return "chk-unchanged-source-path-under-renamed-directory"
+    return None
+
+
+def classify_install_failure(ver, exc, by_id, ids, base, target):
+    if ver != "4" and type(exc).__name__ == "TestamentMismatch":
+        for k in ids:
+            b = base09(by_id, ids, base, target, k)
+            if b == NULL or b not in by_id:
+                continue
+            new, old = by_id[k]["tree"], by_id[b]["tree"]
+            if any(fid in old and old[fid][2] != new[fid][2] for fid in new):
+                return "v09-kind-change-of-a-file-id"
+    return None
+
+
+def classify_corruption(fmt, want, got):
+    if fmt in CHK_FORMATS and isinstance(got, bytes) and isinstance(want, bytes) and len(want) == len(got):
+        diff = [i for i in range(len(want)) if want[i] != got[i]]
+        if diff and all(want[i] == 0 for i in diff):
+            return "gc-rabin-delta-nul-after-source-end"
+    return None
+
+
+def testament_text(repo, rid):
+    from breezy.bzr.testament import StrictTestament3
+    return StrictTestament3.from_revision(repo, rid).as_text()
+
+
+def read_v4_records(data):
+    from io import BytesIO
+    from breezy.bzr.bundle.serializer.v4 import BundleReader
+    f = BytesIO(data)
+    out = dict(revision=[], inventory=[], file=[], signature=[], info=0)
+    for _b, _md, kind, rid, fid in BundleReader(f, stream_input=False).iter_records():
+        if kind == "info":
+            out["info"] += 1
+        elif kind == "file":
+            out["file"].append((fid, rid))
+        else:
+            out[kind].append(rid)
+    return out
+
+
+def do_bundle(sc, base, target, ver, extra, out):
+    """write the bundle for (base, target) with serializer `ver`, install it into a fresh repository holding
+    the ancestry of `base` (plus that of `extra`), run the oracle, queue the model line.
+    Appends dicts to out['viol'], out['t2'], out['count']; returns the bundle bytes (or None)"""
+    from io import BytesIO
+    from breezy.bzr.bundle.serializer import write_bundle, read_bundle
+    repo, src, by_id, fmt = sc["repo"], sc["state"], sc["by_id"], sc["fmt"]
+    case = dict(scenario=sc["key"], base=base.decode(), target=target.decode(), ver=ver,
+                extra=extra.decode() if extra else None)
+    cnt = out["count"]
+    want = src_ancestry(src, target) - (src_ancestry(src, base) if base != NULL else set())
+    buf = BytesIO()
+    try:
+        with repo.lock_read():
+            ids = write_bundle(repo, target, base, buf, ver)
+    except Exception as e:
+        fam = classify_write_failure(ver, fmt, e, by_id, want, base, target)
+        out["viol"].append((case, "writing a v%s bundle for base=%s target=%s raises %s: %s" % (
+            ver, base.decode(), target.decode(), type(e).__name__, str(e)[:120]), fam))
+        cnt["write-failed:v%s:%s" % (ver, fam)] += 1
+        out["cases"].append((case, True))
+        return None
+    data = buf.getvalue()
+    nontrivial = len(ids) >= 2 or (len(ids) == 1 and base != NULL)
+    out["cases"].append((dict(case, n=len(ids)), nontrivial))
+    cnt["bundle-revs:%d" % min(len(ids), 6)] += 1
+    if set(ids) != want:
+        out["viol"].append((case, "bundle v%s carries revisions %s, expected ancestors(target) - ancestors(base) = %s" % (
+            ver, sorted(ids), sorted(want)), None))
+    T = new_repo(fmt)
+    if base != NULL:
+        T.fetch(repo, revision_id=base)
+    if extra:
+        T.fetch(repo, revision_id=extra)
+    T = T.controldir.open_repository()
+    pre = read_state(T)
+    try:
+        info = read_bundle(BytesIO(data))
+        res = info.install_revisions(T)
+    except Exception as e:
+        fam = classify_install_failure(ver, e, by_id, ids, base, target)
+        out["viol"].append((case, "installing the v%s bundle for base=%s target=%s into a repository holding the base "
+                                  "raises %s: %s" % (ver, base.decode(), target.decode(), type(e).__name__,
+                                                     " ".join(str(e).split())[:160]), fam))
+        cnt["install-failed:v%s:%s" % (ver, fam)] += 1
+        shutil.rmtree(T.controldir.root_transport.local_abspath("."), ignore_errors=True)
+        return data
+    T = T.controldir.open_repository()
+    post = read_state(T)
+    # ---- oracle -------------------------------------------------------------
+    exp_res = target if ids else None
+    if res != exp_res:
+        out["viol"].append((case, "install returned %r, expected %r" % (res, exp_res), None))
+    with T.lock_read(), repo.lock_read():
+        for rid in sorted(src_ancestry(src, target)):
+            if rid not in post["revs"]:
+                out["viol"].append((case, "revision %s of the target's ancestry is missing after the install" % rid.decode(), None))
+                continue
+            if post["revs"][rid] != src["revs"][rid]:
+                out["viol"].append((case, "revision %s differs from the original: %r / %r" % (
+                    rid.decode(), post["revs"][rid], src["revs"][rid]), None))
+            try:
+                a = testament_text(T, rid)
+            except Exception as e:
+                out["viol"].append((case, "testament of installed revision %s cannot be computed: %s" % (rid.decode(), e), None))
+                continue
+            b = testament_text(repo, rid)
+            if a != b:
+                out["viol"].append((case, "testament of installed revision %s differs from the original" % rid.decode(), None))
+            ti = post["invs"].get(rid)
+            if ti is None:
+                continue
+            for fid, e in ti.items():
+                if e[1] != "file":
+                    continue
+                got = post["texts"].get((fid, e[4]))
+                wanted = src["texts"].get((fid, e[4]))
+                if got != wanted:
+                    fam = classify_corruption(fmt, wanted, got)
+                    out["viol"].append((case, "installed text (%s, %s) of revision %s differs from the source text: %r / %r" % (
+                        fid.decode(), e[4].decode(), rid.decode(), got if got is None else got[:60],
+                        wanted if wanted is None else wanted[:60]), fam))
+                elif got is not None and hashlib.sha1(got).hexdigest().encode() != e[5]:
+                    out["viol"].append((case, "installed text (%s, %s) does not have the sha1 its inventory records" % (
+                        fid.decode(), e[4].decode()), classify_corruption(fmt, b"", b"")))
+    for key in ("revs", "invs", "texts"):
+        for k, v in pre[key].items():
+            if post[key].get(k) != v:
+                out["viol"].append((case, "%s record %r the repository held before the install changed" % (key, k), None))
+    # ---- model line ----------------------------------------------------------
+    nb = Numbering([src, pre, post], extra=[base, target])
+    if ver == "4":
+        recs = read_v4_records(data)
+        sel = "chk-found" if fmt in CHK_FORMATS else "xml"
+        line = "v4 %s %d %d %s %s" % (sel, nb.r(base), nb.r(target), enc_state(src, nb), enc_state(pre, nb))
+        keys = ",".join("%d.%d" % t for t in sorted({(nb.f(f), nb.r(r)) for f, r in recs["file"]})) or "-"
+        last = recs["revision"][-1] if recs["revision"] else None
+        impl = "ok %s %s %s %s | %s" % (ids_field(nb, recs["revision"]), "~" if last is None else nb.r(last),
+                                        ids_field(nb, recs["inventory"]), keys, canon_after(post, nb))
+        if recs["info"] != 1:
+            out["viol"].append((case, "v4 bundle has %d info records" % recs["info"], None))
+    else:
+        line = "v09 %d %d %s %s" % (nb.r(base), nb.r(target), enc_state(src, nb), enc_state(pre, nb))
+        revs09 = [r.revision_id for r in info.real_revisions]
+        bases = ",".join("%d.%d" % t for t in sorted(
+            (nb.r(r.revision_id), nb.r(info.get_base(r))) for r in info.real_revisions)) or "-"
+        impl = "ok %s %s %s | %s" % (ids_field(nb, revs09), "~" if not revs09 else nb.r(revs09[0]), bases,
+                                     canon_after(post, nb))
+    out["t2"].append((case, line, impl))
+    shutil.rmtree(T.controldir.root_transport.local_abspath("."), ignore_errors=True)
+    return data
+
+
+# ------------------------------------------------------------------ tampering with bundle bytes
+def tamper_bundle(sc, base, target, ver, data, rng, out, n):
+    """single-byte mutations of a bundle: reading/installing must raise, or install exactly the original
+    revisions (the mutation hit a byte that carries no information); never something else"""
+    for _ in range(n):
+        pos = rng.randrange(len(data))
+        old = data[pos]
+        r = rng.random()
+        if r < 0.5:
+            new = old ^ (1 << rng.randrange(8))
+        elif r < 0.8:
+            new = rng.choice(b"aZ09 +/=\n#:-")
+        else:
+            new = rng.randrange(256)
+        if new == old:
+            new = old ^ 1
+        tamper_exact(sc, base, target, ver, data, pos, new, out)
+
+
+def tamper_exact(sc, base, target, ver, data, pos, new, out):
+    from io import BytesIO
+    from breezy.bzr.bundle.serializer import read_bundle
+    repo, src, fmt = sc["repo"], sc["state"], sc["fmt"]
+    cnt = out["count"]
+    old = data[pos]
+    mutated = data[:pos] + bytes([new]) + data[pos + 1:]
+    case = dict(scenario=sc["key"], base=base.decode(), target=target.decode(), ver=ver, tamper=[pos, new])
+    out["cases"].append((case, True))
+    T = new_repo(fmt)
+    if base != NULL:
+        T.fetch(repo, revision_id=base)
+    T = T.controldir.open_repository()
+    tdir = T.controldir.root_transport.local_abspath(".")
+    try:
+        info = read_bundle(BytesIO(mutated))
+        info.install_revisions(T)
+    except BaseException as e:
+        if isinstance(e, (KeyboardInterrupt, SystemExit)):
+            raise
+        cnt["tamper:v%s:raised:%s" % (ver, type(e).__name__)] += 1
+        shutil.rmtree(tdir, ignore_errors=True)
+        return
+    T = T.controldir.open_repository()
+    post = read_state(T)
+    silent = None
+    with T.lock_read(), repo.lock_read():
+        for rid in sorted(post["revs"]):
+            if rid not in src["revs"]:
+                silent = "revision %r, which the source does not have, was installed" % rid
+                break
+            if post["revs"][rid] != src["revs"][rid]:
+                silent = "revision %s was installed with different metadata" % rid.decode()
+                break
+            try:
+                if testament_text(T, rid) != testament_text(repo, rid):
+                    silent = "revision %s was installed with a different testament" % rid.decode()
+                    break
+            except Exception as e:
+                silent = "revision %s was installed but its testament cannot be computed (%s)" % (rid.decode(), type(e).__name__)
+                break
+            for fid, e in post["invs"].get(rid, {}).items():
+                if e[1] == "file" and post["texts"].get((fid, e[4])) != src["texts"].get((fid, e[4])):
+                    silent = "text (%s, %s) was installed with different content" % (fid.decode(), e[4].decode())
+                    break
+            if silent:
+                break
+    if silent:
+        out["viol"].append((case, "a v%s bundle with byte %d changed from %#x to %#x is accepted: %s" % (
+            ver, pos, old, new, silent), None))
+        cnt["tamper:v%s:SILENT" % ver] += 1
+    else:
+        cnt["tamper:v%s:accepted-identical" % ver] += 1
+    shutil.rmtree(tdir, ignore_errors=True)
+
+
+# ------------------------------------------------------------------ merge from a bundle vs merge from the branch
+def wt_snapshot(wt):
+    out = {}
+    with wt.lock_read():
+        for p, ie in wt.iter_entries_by_dir():
+            full = wt.abspath(p)
+            if ie.kind == "file":
+                try:
+                    with open(full, "rb") as f:
+                        c = f.read()
+                except OSError as e:
+                    c = "unreadable:%s" % type(e).__name__
+                out[p] = (ie.file_id, "file", c, wt.is_executable(p))
+            elif ie.kind == "symlink":
+                out[p] = (ie.file_id, "symlink", wt.get_symlink_target(p), False)
+            else:
+                out[p] = (ie.file_id, ie.kind, None, False)
+        confl = sorted(str(c) for c in wt.conflicts())
+        pend = list(wt.get_parent_ids())
+    return out, confl, pend
+
+
+def do_merge(sc, base, target, this, ver, data, out):
+    """merge `target` into a checkout of `this`: once from the source branch, once from the bundle installed
+    by Merger.from_mergeable; both working trees must end up identical"""
+    from io import BytesIO
+    from breezy.bzr.bundle.serializer import read_bundle
+    from breezy.merge import Merger, Merge3Merger
+    from breezy.controldir import ControlDir, format_registry
+    branch, fmt = sc["branch"], sc["fmt"]
+    case = dict(scenario=sc["key"], base=base.decode(), target=target.decode(), ver=ver, merge_into=this.decode())
+    out["cases"].append((case, True))
+    res = []
+    for how in ("branch", "bundle"):
+        d = env.fresh_dir("m")
+        # a branch that holds only the ancestry of `this` and of `base`
+        nb = ControlDir.create_branch_convenience(d, format=format_registry.make_controldir(fmt))
+        nb.repository.fetch(branch.repository, revision_id=this)
+        if base != NULL:
+            nb.repository.fetch(branch.repository, revision_id=base)
+        nb.generate_revision_history(this)
+        wt = nb.controldir.open_workingtree()
+        wt.update()
+        try:
+            with wt.lock_write():
+                if how == "branch":
+                    merger = Merger.from_revision_ids(wt, target, other_branch=branch)
+                else:
+                    merger, _v = Merger.from_mergeable(wt, read_bundle(BytesIO(data)))
+                merger.merge_type = Merge3Merger
+                merger.do_merge()
+                merger.set_pending()
+            res.append(wt_snapshot(wt))
+        except Exception as e:
+            res.append("raised %s: %s" % (type(e).__name__, " ".join(str(e).split())[:100]))
+        shutil.rmtree(d, ignore_errors=True)
+    out["count"]["merge:%s" % ("conflicts" if not isinstance(res[0], str) and res[0][1] else
+                                 "raised" if isinstance(res[0], str) else "clean")] += 1
+    if res[0] != res[1]:
+        what = "merging %s into a tree at %s gives different results from the branch and from the v%s bundle" % (
+            target.decode(), this.decode(), ver)
+        if isinstance(res[0], str) or isinstance(res[1], str):
+            what += ": %r / %r" % (res[0] if isinstance(res[0], str) else "ok", res[1] if isinstance(res[1], str) else "ok")
+        else:
+            diff = sorted(k for k in set(res[0][0]) | set(res[1][0]) if res[0][0].get(k) != res[1][0].get(k))
+            what += ": paths %r, conflicts %r / %r, pending %r / %r" % (diff[:4], res[0][1][:3], res[1][1][:3], res[0][2], res[1][2])
+        out["viol"].append((case, what, None))
+
+
+# ------------------------------------------------------------------ scenario (runs in a worker process)
+def build_scenario(key):
+    """key = (seed, index, fmt) -> scenario dict, or None when the source repository itself does not hold
+    the generated history"""
+    import collections
+    rng = random.Random(repr(tuple(key)))
+    seed, idx, fmt = key
+    opts = dict(nul=("raw" if rng.random() < 0.35 else "guarded"), merge=0.4)
+    kind_changes = rng.random() < 0.15
+    n = rng.randint(5, 8)
+    revs = gen_history(rng, n, opts)
+    if not kind_changes:
+        revs = _without_kind_changes(revs)
+    d = env.fresh_dir("h")
+    branch = build_history(d, revs, fmt)
+    repo = branch.repository
+    by_id = {r["rid"]: r for r in revs}
+    bad = None
+    with repo.lock_read():
+        for r in revs:
+            real = real_tree_state(repo.revision_tree(r["rid"]))
+            ab = abstract_tree_state(r["tree"])
+            if real != ab:
+                fams = {classify_corruption(fmt, ab[f][2], real[f][2]) for f in ab
+                        if f in real and real[f] != ab[f] and ab[f][1] == "file"}
+                bad = (r["rid"], fams)
+                break
+    sc = dict(key=list(key), fmt=fmt, revs=revs, by_id=by_id, branch=branch, repo=repo, dir=d, rng=rng,
+              opts=opts, kind_changes=kind_changes, source_bad=bad)
+    if bad is None:
+        sc["state"] = read_state(repo)
+    return sc
+
+
+def _without_kind_changes(revs):
+    """replace kind changes of a file id by a content-preserving state (the kind of the left parent)"""
+    by = {}
+    for r in revs:
+        if r["parents"]:
+            kinds = {}
+            for p in r["parents"]:
+                if p in by:
+                    for f, e in by[p]["tree"].items():
+                        kinds.setdefault(f, e)
+            tree = dict(r["tree"])
+            for f, e in list(tree.items()):
+                if f in kinds and kinds[f][2] != e[2]:
+                    o = kinds[f]
+                    tree[f] = (e[0], e[1], o[2], o[3], o[4])
+            r["tree"] = tree
+        by[r["rid"]] = r
+    return revs
+
+
+def run_scenario(args):
+    """never raises (exceptions of library code may not survive pickling): a crash travels as text"""
+    import traceback
+    try:
+        return _run_scenario(args)
+    except BaseException as e:
+        if isinstance(e, (KeyboardInterrupt, SystemExit)):
+            raise
+        return dict(viol=[], t2=[], count={}, cases=[], crash="scenario %r: %s" % (args, traceback.format_exc()[-1500:]))
+
+
+def _run_scenario(args):
+    import collections
+    key, tier = args
+    out = dict(viol=[], t2=[], count=collections.Counter(), cases=[])
+    sc = build_scenario(tuple(key))
+    cnt = out["count"]
+    cnt["format:%s" % sc["fmt"]] += 1
+    cnt["contents:nul-%s" % sc["opts"]["nul"]] += 1
+    if sc["source_bad"] is not None:
+        # the commit itself stored something else than it was given: not a bundle matter
+        cnt["source-repository-does-not-hold-the-history:%s" % sorted(map(str, sc["source_bad"][1]))] += 1
+        shutil.rmtree(sc["dir"], ignore_errors=True)
+        return _plain(out)
+    for r in sc["revs"]:
+        for o in r["ops"]:
+            cnt["op:" + o] += 1
+        if len(r["parents"]) > 1:
+            cnt["merge-revisions"] += 1
+    rng = sc["rng"]
+    rids = [r["rid"] for r in sc["revs"]]
+    src = sc["state"]
+    pairs = []
+    for t in rids:
+        anc = src_ancestry(src, t)
+        for b in [NULL] + rids:
+            if b == t:
+                continue
+            kind = "ancestor" if (b == NULL or b in anc) else ("descendant" if t in src_ancestry(src, b) else "sibling")
+            pairs.append((b, t, kind))
+    rng.shuffle(pairs)
+    quota = dict(ancestor=4, sibling=2, descendant=1) if tier == "quick" else dict(ancestor=12, sibling=5, descendant=2)
+    chosen = []
+    for b, t, kind in pairs:
+        if quota[kind] > 0:
+            quota[kind] -= 1
+            chosen.append((b, t, kind))
+    vers = ["4", "0.9"] + (["0.8"] if not sc["repo"].supports_rich_root() else [])
+    first = True
+    for b, t, kind in chosen:
+        cnt["pair:" + kind] += 1
+        for ver in vers:
+            extra = rng.choice(rids) if rng.random() < 0.3 else None
+            data = do_bundle(sc, b, t, ver, extra, out)
+            if data is None:
+                continue
+            if kind != "descendant" and rng.random() < (0.5 if tier == "quick" else 0.8):
+                tamper_bundle(sc, b, t, ver, data, rng, out, 1 if tier == "quick" else 3)
+            if kind == "ancestor" and b != NULL and (first or tier != "quick"):
+                cands = [x for x in rids if x != t and b in src_ancestry(src, x)]
+                if cands:
+                    first = False
+                    do_merge(sc, b, t, rng.choice(cands), ver, data, out)
+    anc_pairs = [(b, t) for b, t, kind in chosen if kind == "ancestor" and b != NULL]
+    for b, t in anc_pairs[:1 if tier == "quick" else 3]:
+        from_objects_case(sc, b, t, rng, out)
+    shutil.rmtree(sc["dir"], ignore_errors=True)
+    return _plain(out)
+
+
+def _plain(out):
+    return dict(viol=out["viol"], t2=out["t2"], count=dict(out["count"]), cases=out["cases"])
+
+
+# ------------------------------------------------------------------ merge directives
+def hexl(lines):
+    return ",".join(l.hex() for l in lines) or "-"
+
+
+def hexo(b):
+    return "~" if b is None else (b.hex() or "-")
+
+
+class _Shim:
+    """stands in for bzrformats.rio_patch inside breezy.merge_directive: delegates, records which lines
+    read_patch_stanza took from the iterator, and (T2 runs on damaged input only) substitutes a valid
+    stanza so that the payload parsing that follows can be observed"""
+
+    def __init__(self, real):
+        self.real = real
+        self.consumed = None
+        self.canned = None
+
+    def to_patch_lines(self, *a, **kw):
+        return self.real.to_patch_lines(*a, **kw)
+
+    def read_patch_stanza(self, line_iter):
+        consumed = []
+
+        def it():
+            for l in line_iter:
+                consumed.append(l)
+                yield l
+        try:
+            st = self.real.read_patch_stanza(it())
+        finally:
+            self.consumed = list(consumed)
+        if self.canned is not None:
+            return self.canned
+        return st
+
+
+_shim = [None]
+
+
+def shim():
+    if _shim[0] is None:
+        from breezy import merge_directive as md
+        from bzrformats import rio_patch
+        _shim[0] = _Shim(rio_patch)
+        md.rio_patch = _shim[0]
+    return _shim[0]
+
+
+RIDS = [b"joe@example.com-20200101120000-abcdef0123456789", b"r1", b"rev-\xc3\xa9t\xc3\xa9-1",
+        b"a-very-long-revision-identifier-" + b"x" * 70 + b"-end", b"null:", b"with\\backslash", b"dash-" * 20 + b"1",
+        b"slash/" * 15 + b"1"]
+URLS = ["http://example.com/branch", "/local/path with space", "lp:project", "bzr+ssh://host/~user/" + "deep/" * 20,
+        "http://x/" + "y" * 100, "file:///C:/dir/\u00e9", "ends-with-space ", "a" * 66 + " b", "http://x/\\back"]
+MSGS = [None, None, "simple message", "two\nlines", "", "trailing space \nsecond", "unicode \u00e9\u20ac", " leading space",
+        "x" * 150, "word " * 40, "back\\slash and \\r literal", "blank\n\nline", "tab\tin", "ends with newline\n",
+        "cr\rinside", "# Begin bundle", "colon: value", "-" * 80]
+PATCH_LINES = [b"=== modified file 'a'\n", b"--- a\t2020-01-01 00:00:00 +0000\n", b"+++ a\t2020-01-01 00:00:01 +0000\n",
+               b"@@ -1,2 +1,2 @@\n", b" context\n", b"-old line \n", b"+new line\n", b"+trailing spaces   \n", b"+\r\n",
+               b"+cr\rinside\n", b"\\ No newline at end of file\n", b"+# Begin patch\n", b"+\xc3\xa9\n", b"+\x00bin\n", b" \n", b"\n",
+               b"+# Begin bundle\n"]
+
+
+def gen_directive_kwargs(rng, bundles):
+    import base64
+    kw = dict(revision_id=rng.choice(RIDS), testament_sha1=hashlib.sha1(b"%d" % rng.randrange(10 ** 6)).hexdigest().encode(),
+              time=rng.choice([86400, 1500000000, 1700000000 + rng.randrange(10 ** 6), 2 ** 31 + 5]),
+              timezone=rng.choice([0, 3600, -3600, 19800, -12600, 43200, -39600]),
+              target_branch=rng.choice(URLS), source_branch=rng.choice([None] + URLS),
+              message=rng.choice(MSGS), base_revision_id=rng.choice(RIDS))
+    r = rng.random()
+    patch = None
+    if r < 0.75:
+        n = rng.choice([0, 1, 3, 6])
+        patch = b"".join(rng.choice(PATCH_LINES) for _ in range(n))
+        if n and rng.random() < 0.15:
+            patch = patch.rstrip(b"\n") + rng.choice([b"", b"x", b"\r"])
+    bundle = None
+    if rng.random() < 0.6 or (patch is None and kw["source_branch"] is None):
+        raw = rng.choice(bundles) if bundles and rng.random() < 0.5 else bytes(rng.randrange(256) for _ in range(rng.choice([0, 5, 60, 200])))
+        bundle = base64.b64encode(raw) if rng.random() < 0.5 else base64.encodebytes(raw)
+        if rng.random() < 0.1:
+            bundle = bundle.rstrip(b"\n")
+    if bundle is None and kw["source_branch"] is None:
+        kw["source_branch"] = URLS[0]
+    kw.update(patch=patch, bundle=bundle)
+    return kw
+
+
+FIELDS = ("revision_id", "testament_sha1", "time", "timezone", "target_branch", "source_branch", "message",
+          "base_revision_id", "patch", "bundle")
+
+
+def classify_date(kw):
+    """family of a directive whose time / timezone do not survive: computed from the offset alone"""
+    tz = kw["timezone"]
+    if tz < 0 and (abs(tz) // 60) % 60 != 0:
+        return "patch-date-negative-offset-with-minutes"
+    return None
+
+
+def classify_directive(kw):
+    """documented domain of the serialisation (everything else is reported as a plain violation)"""
+    p, b = kw["patch"], kw["bundle"]
+    if p is not None and any(l.startswith(b"# Begin bundle") for l in p.splitlines(True)):
+        return "outside-domain:patch-line-starts-with-bundle-marker"
+    if p and b is not None and not p.endswith(b"\n"):
+        return "outside-domain:patch-without-final-newline-followed-by-bundle"
+    return None
+
+
+def directive_case(kw, out, via_file):
+    """serialise, parse back (from the line list or from a file object), compare every field; queue T2 lines"""
+    from io import BytesIO
+    from breezy import merge_directive as md
+    sh = shim()
+    case = dict(directive={k: (v.decode("latin-1") if isinstance(v, bytes) else v) for k, v in kw.items()}, via_file=via_file)
+    d = md.MergeDirective2(**kw)
+    lines = d.to_lines()
+    block = d._to_lines(base_revision=True)[1:-1]
+    out["t2"].append((case, "md.to %s %s %s" % (hexl(block), hexo(kw["patch"]), hexo(kw["bundle"])), hexl(lines)))
+    dom = classify_directive(kw)
+    out["cases"].append((case, kw["patch"] is not None or kw["bundle"] is not None))
+    out["count"]["directive:%s" % (dom or "in-domain")] += 1
+    sh.canned = None
+    try:
+        d2 = md.MergeDirective.from_lines(BytesIO(b"".join(lines)) if via_file else list(lines))
+    except Exception as e:
+        if dom is None:
+            out["viol"].append((case, "from_lines(to_lines(d)) raises %s: %s" % (type(e).__name__, str(e)[:100]), None))
+        return lines
+    bad = [k for k in FIELDS if getattr(d2, k) != kw[k]]
+    if bad and dom is None:
+        fam = classify_date(kw) if set(bad) <= {"time", "timezone"} else None
+        out["viol"].append((case, "from_lines(to_lines(d)) differs from d in %s: %r / %r" % (
+            bad, [getattr(d2, k) for k in bad][:2], [kw[k] for k in bad][:2]), fam))
+    if dom is not None:
+        out["count"]["outside-domain-roundtrip:%s" % ("differs" if bad else "equal")] += 1
+    got_block = list(sh.consumed or [])
+    if got_block and got_block[-1] in (b"# \n", b"#\n"):
+        got_block = got_block[:-1]
+    impl = "ok %s %s %s" % (hexl(got_block), hexo(d2.patch), hexo(d2.bundle))
+    if via_file:
+        out["t2"].append((case, "md.rt %s %s %s" % (hexl(block), hexo(kw["patch"]), hexo(kw["bundle"])), impl))
+    else:
+        out["t2"].append((case, "md.from %s" % hexl(lines), impl))
+    return lines
+
+
+def damaged_case(rng, lines, good_stanza, out):
+    """~10% stream: damage outside the stanza block; compared on accept/reject + error kind + payload split"""
+    from breezy import merge_directive as md
+    from breezy import errors
+    sh = shim()
+    lines = list(lines)
+    r = rng.choice(["junk-before", "no-header", "format-0.19", "format-1", "format-3", "header-space", "payload-garbage",
+                    "marker-suffix", "bundle-first", "drop-patch-marker", "blank-short", "double-header"])
+    k = next(i for i, l in enumerate(lines) if l.startswith(b"# Bazaar merge directive format "))
+    t = next(i for i, l in enumerate(lines) if l == b"# \n")
+    if r == "junk-before":
+        lines[0:0] = [b"From: x\n", b"\n", b"> quoted\n"]
+    elif r == "no-header":
+        del lines[k]
+    elif r == "format-0.19":
+        lines[k] = b"# Bazaar merge directive format 2 (Bazaar 0.19)\n"
+    elif r == "format-1":
+        lines[k] = b"# Bazaar merge directive format 1\n"
+    elif r == "format-3":
+        lines[k] = b"# Bazaar merge directive format 3\n"
+    elif r == "header-space":
+        lines[k] = lines[k].rstrip(b"\n") + rng.choice([b" \r\n", b"\t\n", b"  \n"])
+    elif r == "payload-garbage":
+        lines.insert(t + 1, rng.choice([b"garbage\n", b"#Begin patch\n", b"# begin patch\n", b" # Begin patch\n"]))
+    elif r == "marker-suffix":
+        for i in range(t + 1, len(lines)):
+            if lines[i] in (b"# Begin patch\n", b"# Begin bundle\n"):
+                lines[i] = lines[i].rstrip(b"\n") + rng.choice([b"es\n", b" \n", b"\r\n", b""]) + b""
+                if not lines[i].endswith(b"\n"):
+                    lines[i] += b"\n"
+                break
+    elif r == "bundle-first":
+        lines[t + 1:] = [b"# Begin bundle\n", b"QUJD\n", b"# Begin patch\n", b"+x\n"]
+    elif r == "drop-patch-marker":
+        if t + 1 < len(lines):
+            del lines[t + 1]
+    elif r == "blank-short":
+        lines[t] = b"#\n"
+    elif r == "double-header":
+        lines.insert(0, lines[k])
+    case = dict(damaged=r, lines=[l.decode("latin-1") for l in lines])
+    out["cases"].append((case, True))
+    out["count"]["damaged:" + r] += 1
+    sh.canned = good_stanza
+    try:
+        d2 = md.MergeDirective.from_lines(lines)
+        if isinstance(d2, md.MergeDirective2):
+            got = list(sh.consumed or [])
+            if got and got[-1] in (b"# \n", b"#\n"):
+                got = got[:-1]
+            impl = "ok %s %s %s" % (hexl(got), hexo(d2.patch), hexo(d2.bundle))
+        else:
+            impl = "E:Format1"
+    except errors.NotAMergeDirective:
+        impl = "E:NotADirective"
+    except md.IllegalMergeDirectivePayload:
+        impl = "E:IllegalPayload"
+    except KeyError:
+        impl = "E:UnknownFormat"
+    except ValueError:
+        impl = "E:BadStanza"
+    except Exception as e:
+        impl = "E:%s" % type(e).__name__
+    finally:
+        sh.canned = None
+    if impl == "E:Format1" or (r == "format-1"):
+        # format 1 parsing is outside the model: both sides only say which class handles it
+        impl = "E:Format1" if r == "format-1" else impl
+    out["t2"].append((case, "md.from %s" % hexl(lines), impl))
+
+
+def norm_py(b):
+    import re
+    b = re.sub(b"\r\n?", b"\n", b)
+    return re.sub(b" *\n", b"\n", b)
+
+
+def from_objects_case(sc, base, target, rng, out):
+    """MergeDirective2.from_objects on a real repository: the directive round-trips, its bundle installs the
+    target with the testament sha1 it names, its patch verifies, and a patch with one byte changed does not"""
+    from io import BytesIO
+    from breezy import merge_directive as md
+    from breezy.bzr.testament import StrictTestament3
+    from breezy.controldir import ControlDir, format_registry
+    shim().canned = None
+    repo, fmt = sc["repo"], sc["fmt"]
+    case = dict(scenario=sc["key"], base=base.decode(), target=target.decode(), from_objects=True)
+    out["cases"].append((case, True))
+    d0 = env.fresh_dir("submit")
+    submit = ControlDir.create_branch_convenience(d0, format=format_registry.make_controldir(fmt), force_new_tree=False)
+    submit.repository.fetch(repo, revision_id=base)
+    submit.generate_revision_history(base)
+    try:
+        d = md.MergeDirective2.from_objects(repository=repo, revision_id=target, time=1600000000, timezone=3600,
+                                            target_branch=submit.base, local_target_branch=submit,
+                                            include_patch=True, include_bundle=True)
+    except Exception as e:
+        fam = classify_write_failure("4", fmt, e, sc["by_id"], [], base, target)
+        out["viol"].append((case, "MergeDirective2.from_objects raises %s: %s" % (type(e).__name__, str(e)[:100]), fam))
+        shutil.rmtree(d0, ignore_errors=True)
+        return
+    lines = d.to_lines()
+    d2 = md.MergeDirective.from_lines(BytesIO(b"".join(lines)))
+    bad = [k for k in FIELDS if getattr(d2, k) != getattr(d, k)]
+    if bad:
+        out["viol"].append((case, "directive made by from_objects does not round-trip: fields %s differ" % bad, None))
+    T = submit.repository
+    try:
+        d2.install_revisions(T)
+        with T.lock_read(), repo.lock_read():
+            sha = StrictTestament3.from_revision(T, target).as_sha1()
+            if sha != d2.testament_sha1 or sha != StrictTestament3.from_revision(repo, target).as_sha1():
+                out["viol"].append((case, "the installed target's testament sha1 is not the one the directive names", None))
+            calc = d2._generate_diff(T, d2.revision_id, d2.base_revision_id)
+            verdict = d2._maybe_verify(T)
+            if verdict != "verified":
+                out["viol"].append((case, "the directive's own patch does not verify against the installed revisions (%s)" % verdict, None))
+            out["t2"].append((case, "verify %s %s" % (hexo(calc), hexo(d2.patch)), "T" if verdict == "verified" else "F"))
+            stored = d2.patch
+            for _ in range(4):
+                pos = rng.randrange(len(stored)) if stored else 0
+                if not stored:
+                    break
+                newb = rng.choice([stored[pos] ^ 1, 32, 10, 13, ord("x"), stored[pos] ^ 0x20])
+                if newb == stored[pos]:
+                    continue
+                mut = stored[:pos] + bytes([newb]) + stored[pos + 1:]
+                if rng.random() < 0.3:
+                    mut = stored[:pos] + rng.choice([b" ", b"\r", b"\n", b"x"]) + stored[pos:]     # insertion
+                d2.patch = mut
+                v = d2._maybe_verify(T)
+                d2.patch = stored
+                tc = dict(case, patch_mutation=[pos, newb, len(mut) - len(stored)])
+                out["cases"].append((tc, True))
+                out["t2"].append((tc, "verify %s %s" % (hexo(calc), hexo(mut)), "T" if v == "verified" else "F"))
+                if v == "verified" and norm_py(mut) != norm_py(stored):
+                    out["viol"].append((tc, "a patch that differs from the regenerated diff beyond line endings and trailing "
+                                            "spaces is reported as verified", None))
+                ws = {32, 13, 10}
+                if v == "verified" and len(mut) == len(stored) and stored[pos] not in ws and newb not in ws:
+                    out["viol"].append((tc, "changing byte %d of the patch from %#x to %#x is not detected" % (pos, stored[pos], newb), None))
+                out["count"]["patch-tamper:%s" % v] += 1
+    except Exception as e:
+        out["viol"].append((case, "installing / verifying the directive made by from_objects raises %s: %s" % (
+            type(e).__name__, " ".join(str(e).split())[:120]), None))
+    shutil.rmtree(d0, ignore_errors=True)
+
+
+# ------------------------------------------------------------------ run
+def _merge_out(ctx, o, t2):
+    if o.get("crash"):
+        raise env.InfraError(o["crash"])
+    for case, nontrivial in o["cases"]:
+        ctx.case(case, nontrivial=nontrivial)
+    for k, v in o["count"].items():
+        ctx.count(k, v)
+    for case, what, fam in o["viol"]:
+        ctx.violation(case, what, family=fam)
+    t2.extend(o["t2"])
+
+
+def scenario_keys(ctx, n):
+    fmts = ["2a", "2a", "2a", "1.9", "2a", "1.9-rich-root"] if ctx.tier == "quick" else \
+        ["2a", "2a", "1.9", "1.9-rich-root", "2a", "pack-0.92", "knit"]
+    return [((ctx.seed, i, fmts[i % len(fmts)]), ctx.tier) for i in range(n)]
+
+
+def scenario_with_directive(args):
+    """worker: one scenario + one from_objects directive on it"""
+    import collections
+    o = run_scenario(args)
+    return o
+
+
+def run(ctx, nscen=None, ndir=None):
+    import collections
+    t2 = []
+    # ---- 1. normalisation, exhaustive --------------------------------------------------------
+    alphabet = [b"a", b" ", b"\r", b"\n"]
+    strings = [b""]
+    layer = [b""]
+    for _ in range(ctx.pick(6, 7)):
+        layer = [x + c for x in layer for c in alphabet]
+        strings += layer
+    for b in strings:
+        case = dict(norm=b.decode())
+        ctx.case(case, nontrivial=(b" \n" in b or b"\r" in b))
+        t2.append((case, "norm %s" % hexo(b), hexo(norm_py(b))))
+    ctx.count("norm-strings", len(strings))
+    ctx.exhaustive = True
+    # ---- 2. directives with random fields -----------------------------------------------------
+    out = dict(viol=[], t2=[], count=collections.Counter(), cases=[])
+    rng = ctx.rng
+    bundles = [b"# Bazaar revision bundle v4\n#\nBZh91AY&SY" + bytes(rng.randrange(256) for _ in range(80))]
+    from bzrformats import rio
+    good = None
+    for i in range(ndir or ctx.pick(150, 1500)):
+        kw = gen_directive_kwargs(rng, bundles)
+        lines = directive_case(kw, out, via_file=(i % 2 == 0))
+        if good is None:
+            from breezy import merge_directive as md
+            good = shim().real.read_patch_stanza(iter(md.MergeDirective2(**kw)._to_lines(base_revision=True)[1:]))
+        if rng.random() < 0.12:
+            damaged_case(rng, lines, good, out)
+    _merge_out(ctx, dict(out, count=dict(out["count"])), t2)
+    # ---- 3. histories, bundles, merges, from_objects ------------------------------------------
+    keys = scenario_keys(ctx, nscen or ctx.pick(6, 36))
+    for o in ctx.pmap(scenario_with_directive, keys, chunksize=1):
+        _merge_out(ctx, o, t2)
+    if t2 and ctx.model_available:
+        ctx.diff([c for c, _l, _i in t2], [l for _c, l, _i in t2], [i for _c, _l, i in t2])
+
+
+def widen(ctx):
+    run(ctx, nscen=24, ndir=1500)
+
+
+def replay(ctx, case):
+    import collections
+    out = dict(viol=[], t2=[], count=collections.Counter(), cases=[])
+    if "norm" in case:
+        b = case["norm"].encode()
+        m = ctx.model(["norm %s" % hexo(b)])[0]
+        return dict(case=case, impl=hexo(norm_py(b)), model=m, agree=m == hexo(norm_py(b)))
+    if "directive" in case:
+        kw = {k: (v.encode("latin-1") if k in ("revision_id", "testament_sha1", "base_revision_id", "patch", "bundle")
+                  and v is not None else v) for k, v in case["directive"].items()}
+        directive_case(kw, out, case.get("via_file", False))
+    elif "damaged" in case:
+        from breezy import merge_directive as md
+        lines = [l.encode("latin-1") for l in case["lines"]]
+        sh = shim()
+        kw = gen_directive_kwargs(random.Random(0), [])
+        sh.canned = sh.real.read_patch_stanza(iter(md.MergeDirective2(**kw)._to_lines(base_revision=True)[1:]))
+        try:
+            d2 = md.MergeDirective.from_lines(lines)
+            impl = "ok %s %s" % (hexo(getattr(d2, "patch", None)), hexo(getattr(d2, "bundle", None)))
+        except Exception as e:
+            impl = "E:%s" % type(e).__name__
+        sh.canned = None
+        return dict(case=case, impl=impl, model=ctx.model(["md.from %s" % hexl(lines)])[0])
+    else:
+        sc = build_scenario(tuple(case["scenario"]))
+        if sc["source_bad"] is not None:
+            return dict(case=case, note="the source repository does not hold the generated history", detail=repr(sc["source_bad"]))
+        base, target = case["base"].encode(), case["target"].encode()
+        rng = random.Random(0)
+        if case.get("from_objects"):
+            from_objects_case(sc, base, target, rng, out)
+        else:
+            extra = case["extra"].encode() if case.get("extra") else None
+            data = do_bundle(sc, base, target, case["ver"], extra, out)
+            if data is not None and case.get("tamper"):
+                pos, new = case["tamper"]
+                tamper_exact(sc, base, target, case["ver"], data, pos, new, out)
+            if data is not None and case.get("merge_into"):
+                do_merge(sc, base, target, case["merge_into"].encode(), case["ver"], data, out)
+    for c, what, fam in out["viol"]:
+        ctx.violation(c, what, family=fam)
+    res = dict(case=case, oracle_failures=[v[1] for v in out["viol"]])
+    if out["t2"] and ctx.model_available:
+        ms = ctx.model([l for _c, l, _i in out["t2"]])
+        res["impl"] = [i[:400] for _c, _l, i in out["t2"]]
+        res["model"] = [m[:400] for m in ms]
+        res["agree"] = [i == m for (_c, _l, i), m in zip(out["t2"], ms)]
+    return res
